@@ -75,6 +75,9 @@ pub struct H2Scenario {
     pub reqs: Vec<H2Req>,
     /// largest number of bytes moved across the pipe per simulator step
     pub seg_cap: u32,
+    /// the client vanishes (connection reset, all its tasks gone) at this simulator step
+    #[serde(default)]
+    pub drop_conn_at: Option<u64>,
 }
 
 fn chunk_sizes(b: &BodyKind) -> Vec<usize> {
@@ -153,6 +156,7 @@ struct Out {
     log: Vec<String>,
     conn_err: Option<String>,
     handler_calls: usize,
+    dropped_mid_run: bool,
 }
 
 async fn run_world(sc: H2Scenario, tape: Tape, narrative: bool) -> Out {
@@ -210,6 +214,7 @@ async fn run_world(sc: H2Scenario, tape: Tape, narrative: bool) -> Out {
     let t_server = ex.spawn("server-conn", async move {
         let _ = conn_fut.await;
     });
+    let mut client_tasks: Vec<usize> = Vec::new();
     let outs: Rc<RefCell<Vec<StreamOut>>> = Rc::new(RefCell::new(vec![StreamOut::default(); n]));
     let conn_err: Rc<RefCell<Option<String>>> = Rc::new(RefCell::new(None));
     let gates = Gates::new(2 * n + 4);
@@ -224,7 +229,7 @@ async fn run_world(sc: H2Scenario, tape: Tape, narrative: bool) -> Out {
         let gates = gates.clone();
         let (sw, cw, mf) = (sc.stream_window, sc.conn_window, sc.max_frame);
         let ready_gate = 2 * n;
-        ex.spawn("client-conn", async move {
+        let t = ex.spawn("client-conn", async move {
             let mut b = h2::client::Builder::new();
             b.initial_window_size(sw).initial_connection_window_size(cw).max_frame_size(mf);
             match b.handshake::<_, Bytes>(cli_end).await {
@@ -241,6 +246,7 @@ async fn run_world(sc: H2Scenario, tape: Tape, narrative: bool) -> Out {
                 }
             }
         });
+        client_tasks.push(t);
     }
     for (i, r) in sc.reqs.iter().enumerate() {
         let outs = outs.clone();
@@ -250,7 +256,7 @@ async fn run_world(sc: H2Scenario, tape: Tape, narrative: bool) -> Out {
         let grant_wakers = grant_wakers.clone();
         let r = r.clone();
         let ready_gate = 2 * n;
-        ex.spawn(&format!("stream-{}", i), async move {
+        let t_stream = ex.spawn(&format!("stream-{}", i), async move {
             gates.wait(ready_gate).await;
             gates.wait(i).await;
             outs.borrow_mut()[i].started = true;
@@ -339,6 +345,7 @@ async fn run_world(sc: H2Scenario, tape: Tape, narrative: bool) -> Out {
             }
             outs.borrow_mut()[i].finished = true;
         });
+        client_tasks.push(t_stream);
     }
     let mut out = Out::default();
     let mut started = vec![false; n];
@@ -354,6 +361,11 @@ async fn run_world(sc: H2Scenario, tape: Tape, narrative: bool) -> Out {
         }
         // response tasks are spawned on the runtime by the dispatcher (actix_rt::spawn): let them run
         tokio::task::yield_now().await;
+        if sc.drop_conn_at == Some(out.steps) {
+            out.dropped_mid_run = true;
+            *out.stats.entry("client_vanished_mid_run").or_insert(0) += 1;
+            break;
+        }
         #[derive(Clone, Copy)]
         enum A {
             Run(usize),
@@ -466,6 +478,43 @@ async fn run_world(sc: H2Scenario, tape: Tape, narrative: bool) -> Out {
             }
         }
     }
+    // teardown: the client goes away — reset in the middle of everything, or an orderly end of
+    // stream once all its streams are done. The server's connection future must then finish.
+    if out.stuck.is_none() {
+        for t in &client_tasks {
+            ex.cancel(*t);
+        }
+        if out.dropped_mid_run {
+            srv_peer.st.borrow_mut().reset_conn();
+        } else {
+            srv_peer.st.borrow_mut().half_close();
+        }
+        srv_peer.st.borrow_mut().fire_read_wake();
+        let mut guard = 0u32;
+        loop {
+            guard += 1;
+            if guard > 100_000 {
+                out.stuck = Some("server connection keeps being woken without finishing after the peer went away".into());
+                break;
+            }
+            tokio::task::yield_now().await;
+            if !ex.unfinished().contains(&t_server) {
+                break;
+            }
+            let runnable = ex.runnable();
+            if !runnable.is_empty() {
+                for r in runnable {
+                    ex.poll_task(r);
+                }
+                continue;
+            }
+            let dl = ex.now() + Duration::from_secs(5);
+            if ex.idle_until(dl).await == Idle::Deadline {
+                out.stuck = Some(format!("server connection task never finishes after the peer {}", if out.dropped_mid_run { "reset the connection" } else { "closed its side" }));
+                break;
+            }
+        }
+    }
     out.streams = outs.borrow().clone();
     out.conn_err = conn_err.borrow().clone();
     out.handler_calls = *calls.borrow();
@@ -558,6 +607,7 @@ impl Rig for H2Rig {
             max_frame: *rng.pick(&[16_384u32, 16_384, 32_768, 100_000]),
             reqs,
             seg_cap: *rng.pick(&[64u32, 1000, 20_000]),
+            drop_conn_at: if rng.chance(1, 6) { Some(*rng.pick(&[5u64, 30, 60, 100, 200, 400, 1000, 3000])) } else { None },
         }
     }
 
@@ -609,7 +659,7 @@ impl Rig for H2Rig {
         let mut stats = out.stats.clone();
         let mut narr = out.log.clone();
         if let Some(s) = &out.stuck {
-            vs.push(Violation::new("C08.complete", "hang", s.clone()));
+            vs.push(Violation::new("C08.complete", if s.starts_with("server connection") { "server-connection-outlives-peer" } else { "hang" }, s.clone()));
         }
         if let Some(s) = &out.blocked_by_stalled {
             vs.push(Violation::new("C08.independent", "blocked-by-unread-stream", s.clone()));
